@@ -125,6 +125,8 @@ func lrQueue(comp string, ph []lrPhase, fail lrFail) {
 
 // ---------------------------------------------------------------- stacks
 
+const lrProbe = -5 // the value the "same question asked again much later" families ask about
+
 func lrStack(comp string, ph []lrPhase, fail lrFail) {
 	var s lifo
 	var model []int
@@ -166,6 +168,24 @@ func lrStack(comp string, ph []lrPhase, fail lrFail) {
 				s.Push(next)
 				model = append(model, next)
 				next++
+			case "PushProbe": // a fixed value, pushed as often as the phase says
+				s.Push(lrProbe)
+				model = append(model, lrProbe)
+			case "SearchProbe":
+				held := false
+				for _, m := range model {
+					held = held || m == lrProbe
+				}
+				if got := s.Search(lrProbe); got != held {
+					fail(comp+".Search/long-run/stale-answer", "Search(%d) = %t, held = %t (size %d)", lrProbe, got, held, len(model))
+					return
+				}
+			case "Cycle": // Push then Pop of another value: the contents are the same afterwards, the history is longer
+				s.Push(lrProbe + 1)
+				if v := s.Pop(); !popValue(v, lrProbe+1, len(model)+1) {
+					fail(comp+".Pop/long-run/not-lifo", "Pop right after Push(%d) returned %d", lrProbe+1, v)
+					return
+				}
 			case "Pop", "PopChecked":
 				v := s.Pop()
 				if len(model) == 0 {
@@ -536,6 +556,18 @@ func init() {
 					continue // beyond 300: every 7th size and the sizes around powers of two
 				}
 				hs = append(hs, []lrPhase{{"Push", n}, {"PopChecked", n + 1}})
+			}
+			lrRun(rep, comp, hs, func(ph []lrPhase, fail lrFail) { lrStack(comp, ph, fail) })
+			// the same question asked again after a long history that leaves the contents (almost) as they
+			// were: N push/pop cycles with N around 2^7 and 2^15 (8- and 16-bit modification counters wrap)
+			hs = nil
+			for _, N := range []int{126, 127, 128, 129, 254, 255, 256, 32766, 32767, 32768, 32769} {
+				for p := 1; p <= 2; p++ {
+					hs = append(hs, []lrPhase{{"Push", 1}, {"SearchProbe", 1}, {"PushProbe", p}, {"Cycle", N}, {"SearchProbe", 1}})
+				}
+				for q := 0; q <= 1; q++ {
+					hs = append(hs, []lrPhase{{"Push", 1}, {"PushProbe", 1}, {"SearchProbe", 1}, {"Pop", 1}, {"Push", q}, {"Cycle", N}, {"SearchProbe", 1}})
+				}
 			}
 			lrRun(rep, comp, hs, func(ph []lrPhase, fail lrFail) { lrStack(comp, ph, fail) })
 		}
